@@ -248,7 +248,7 @@ def do_check(pid, tier, seed):
                 cmd = [HARNESS, "sweep", "--out", path] + [str(x) for x in d.get("args", [])]
             else:
                 cmd = [HARNESS, "gen", d["name"], "--seed", str(seed * 1000 + di * 100 + sh), "--episodes", str(d["episodes"]),
-                       "--out", path] + [str(x).replace("{shard}", str(sh)) for x in d.get("args", [])]
+                       "--out", path] + [str(x).replace("{shard}", str(sh)).replace("{seedshard}", str((seed * d.get("shards", 1) + sh) % 16)) for x in d.get("args", [])]
             jobs.append((cmd, path, d["name"]))
     gen_stats = []
 
